@@ -182,8 +182,11 @@ def run_real(cfg, *, seed=1234, storage="mem", delays=None, event_dir=None, init
         kw["force_memmap"] = True
         kw["memmap_path"] = tmp
     obs = {"exception": None}
+    import contextlib
+    import io
+
     try:
-        with warnings.catch_warnings():
+        with warnings.catch_warnings(), contextlib.redirect_stdout(io.StringIO()):
             warnings.simplefilter("ignore")
             out = sampler.sample_chains(
                 0, cfg["nrows"], init_states, trace_funcs=[P.probe_trace], adapters={"probe": []},
@@ -398,7 +401,7 @@ def _gnld(q):
 
 
 def hmc_run(*, sampler="static", adapters=("dual",), stager="default", n_warm=12, n_main=4, nchain=2,
-            n_process=1, intr_call=0, seed=7, trace_warm_up=False, force_memmap=False):
+            n_process=1, intr_call=0, seed=7, trace_warm_up=False, force_memmap=False, explicit_mom=False):
     """Run a real HMC sampler; returns dict(exception, step_sizes per main row, n_final, ...)."""
     import mici
 
@@ -424,6 +427,9 @@ def hmc_run(*, sampler="static", adapters=("dual",), stager="default", n_warm=12
     elif stager == "windowed-small":
         stg = mici.stagers.WindowedWarmUpStager(n_init_slow_window_iter=2, n_init_fast_stage_iter=2, n_final_fast_stage_iter=2)
     init = [np.array([0.3 * (c + 1), -0.2, 0.1 * c]) for c in range(nchain)]
+    if explicit_mom:  # initial momenta supplied by the caller: the base generator is not consumed
+        from mici.states import ChainState
+        init = [ChainState(pos=x, mom=np.array([0.5, -0.1 * (c + 1), 0.2]), dir=1) for c, x in enumerate(init)]
     tf = _IntrTrace(intr_call)
     res = {"exception": None}
     try:
@@ -447,3 +453,72 @@ def hmc_run(*, sampler="static", adapters=("dual",), stager="default", n_warm=12
     except RuntimeError:  # implicit-size identity
         res["metric"] = np.eye(3).tolist()
     return res
+
+
+# --------------------------------------------------------------------------------------
+# code -> spec: trace validation of recorded real runs by TLC (Trace_Sampler.tla)
+# --------------------------------------------------------------------------------------
+TRACE_CFG = """SPECIFICATION TraceSpec
+INVARIANT TypeOK
+INVARIANT NoReplay
+INVARIANT PrefixOnInterrupt
+INVARIANT RowsExact
+INVARIANT MainFrozen
+INVARIANT Progress_
+POSTCONDITION AllAccepted
+CHECK_DEADLOCK FALSE
+"""
+
+
+def record_real(cfg, name, **kw):
+    d = tlc.fresh_dir(name)
+    obs = run_real(cfg, event_dir=str(d), **kw)
+    evs = []
+    f = d / "events.ndjson"
+    if f.exists():
+        evs = [json.loads(x) for x in f.read_text().splitlines() if x.strip()]
+    shutil.rmtree(d, ignore_errors=True)
+    # per-process order must be respected by the file order (sanity of the linearisation)
+    last = {}
+    for e in evs:
+        if e["seq"] <= last.get(e["pid"], 0):
+            raise MachineryError("event file order contradicts a per-process sequence number")
+        last[e["pid"]] = e["seq"]
+    return obs, evs
+
+
+def validate_real_traces(cfgs, records, name, timeout=900):
+    """records: list of (cfg index, obs, events).  Returns (rejected list, TlcResult)."""
+    d = tlc.fresh_dir(name)
+    tlc.stage_specs(d, ["Sampler.tla", "Trace_Sampler.tla"])
+    used = sorted({g for g, _, _ in records})
+    local = {g: i + 1 for i, g in enumerate(used)}
+    (d / "SamplerConsts.tla").write_text(consts_module([cfgs[g] for g in used]))
+    items = []
+    for g, obs, evs in records:
+        ev_t = []
+        for e in evs:
+            if e["ev"] == "Trans":
+                ev_t.append({"ev": "Trans", "c": e["c"], "k": e["k"], "s": e["s"], "i": e["i"]})
+            elif e["ev"] == "Interrupt":
+                ev_t.append({"ev": "Interrupt", "site": e["site"], "c": e["c"], "s": e["s"], "k": e["k"]})
+            elif e["ev"] == "AdFinal":
+                ev_t.append({"ev": "AdFinal", "a": e["a"], "s": e["s"]})
+        nchain, nr = cfgs[g]["nchain"], cfgs[g]["nrows"]
+        o = {"tr": [[[row[0], row[1]] for row in obs["tr"][c]] for c in range(nchain)],
+             "sr": [[[row[0], row[1]] for row in obs["sr"][c]] for c in range(nchain)],
+             "finals": obs["finals"]}
+        items.append("[cfg |-> %d, ev |-> %s, obs |-> [tr |-> %s, sr |-> %s, finals |-> %s]]" % (
+            local[g], tlc.to_tla(ev_t) if ev_t else "<<>>", tlc.to_tla(o["tr"]), tlc.to_tla(o["sr"]),
+            tlc.to_tla(o["finals"])))
+    (d / "TraceDataSampler.tla").write_text(
+        "---- MODULE TraceDataSampler ----\nEXTENDS Integers\nTraces == <<\n " + ",\n ".join(items) + "\n>>\n====\n")
+    res = tlc.run_tlc(d, "Trace_Sampler", TRACE_CFG, workers=1, timeout=timeout, dump_trace=False, cpus=4,
+                      heap="4g", dfs_queue=True)
+    rejected = []
+    for r in res.printed:
+        if isinstance(r, dict) and "rejected" in r:
+            rejected += [tuple(x) for x in r["rejected"]]
+    if not res.ok and res.error_kind != "postcondition":
+        rejected.append((-1, f"invariant {res.violated} violated while following a real trace"))
+    return rejected, res
